@@ -16,7 +16,7 @@ def run(spec):
     try:
         for p in props.split(","):
             env = dict(os.environ, VERIF_REPO=wt, VERIF_OUTDIR=out, VERIF_JOBS="8")
-            r = subprocess.run([os.path.join(VERIF, "bin", "check"), p, "--tier", "quick", "--no-evidence"], env=env, capture_output=True, text=True)
+            r = subprocess.run([os.path.join(VERIF, "bin", "check"), p, "--tier", os.environ.get("VERIF_EVAL_TIER", "quick"), "--no-evidence"], env=env, capture_output=True, text=True)
             lines = [l for l in r.stdout.split("\n") if l.startswith(("VIOLATION", "INCONCLUSIVE", "  solver", "  native", "[check"))]
             res.append(f"{p} exit={r.returncode}\n" + "\n".join(l[:500] for l in lines))
     finally:
